@@ -250,7 +250,7 @@ func (c *Ctx) frameObligations(fc *FuncContract, eenv *Env, entry, out *State, R
 		if v0 == v1 {
 			continue
 		}
-		goal := c.frameFormula(key, alloc0, allowed[key], v1, v0)
-		c.oblige("frame", "frame{"+key+"}", Rret, stripPattern(goal))
+		goal := c.frameGoal(key, alloc0, allowed[key], v1, v0)
+		c.oblige("frame", "frame{"+key+"}", Rret, goal)
 	}
 }
